@@ -168,6 +168,9 @@ func impostor(ctx context.Context, conn transport.Conn, a attack, e *env, r *hc.
 		fps = []int64{int64(r.U64()), fps[0], ownFP ^ 1}
 	case is("fps-dup"):
 		fps = []int64{fps[0], fps[0], fps[0]}
+	case is("fps-both"):
+		// both keys offered, the impostor's first: the client must take the first of *its own* list
+		fps = []int64{ownFP, trustedFP}
 	}
 	res := &mt.ResPQ{Nonce: req.Nonce, ServerNonce: sn, Pq: pq.Bytes(), ServerPublicKeyFingerprints: fps}
 	if is("pq-leading-zeros") { // non-minimal big-endian encoding of the same number
@@ -208,6 +211,13 @@ func impostor(ctx context.Context, conn transport.Conn, a attack, e *env, r *hc.
 	}
 	var newNonce bin.Int256
 	known := false
+	if is("fps-both") { // the impostor holds both keys: it answers whichever the client chose
+		if dh.PublicKeyFingerprint == trustedFP {
+			myKey = e.trusted
+		} else {
+			myKey = e.own
+		}
+	}
 	if rawIn, err := crypto.DecodeRSAPad(dh.EncryptedData, myKey); err == nil {
 		if in, err := mt.DecodePQInnerData(&bin.Buffer{Buf: rawIn}); err == nil {
 			newNonce, known = in.GetNewNonce(), true
@@ -578,7 +588,7 @@ func gen(r *hc.RNG) attack {
 		if r.Chance(50) {
 			// format variations by an authenticated server: the model decides (all are accepted
 			// by the specification-level decoding except over-padding)
-			a.kind, a.arg = hc.Pick(r, "fps-dup", "pq-leading-zeros", "prime-leading-zeros", "ga-leading-zeros", "inner-trailing-bytes",
+			a.kind, a.arg = hc.Pick(r, "fps-dup", "fps-both", "pq-leading-zeros", "prime-leading-zeros", "ga-leading-zeros", "inner-trailing-bytes",
 				"inner-trailing-tl", "res-trailing", "dh-trailing", "gen-trailing", "ans-overpad"), r.Intn(1024)
 		}
 		if r.Chance(25) {
@@ -606,6 +616,9 @@ func gen(r *hc.RNG) attack {
 		if r.Chance(10) {
 			a.key = "claim" // the deviation of an impostor that cannot even read new_nonce
 		}
+	}
+	if a.kind == "fps-both" {
+		a.key = "second-trusted"
 	}
 	if a.kind == "g-residue" {
 		g, p := 2+a.arg%6, c09x.SafePrime(a.arg/6)
